@@ -295,6 +295,36 @@ def documented_nodes(name, n):
     return np.sort(np.asarray(x, dtype=float))
 
 
+# ------------------------------------------------------------------ Fejer-2 series (classification of a failure)
+def fejer2_series_weights(n, drop=0):
+    """Ascending (nodes, weights) of Fejer's second rule with n nodes from its definition, in long double:
+
+        theta_k = k pi / N,  N = n + 1,  k = 1..n,   x_k = cos(theta_k),
+        w_k = (4 sin(theta_k) / N) * sum_{j=1}^{floor(N/2) - drop} sin((2j-1) theta_k) / (2j-1).
+
+    drop = 0 is the rule (self-tested to be exact to degree n-1); drop = 1 is the series stopped one term early,
+    used ONLY to classify how an inexact FejerSecond fails (signature of the open finding), never to accept it.
+    """
+    ld = np.longdouble
+    N = n + 1
+    pi = np.arccos(ld(-1))
+    theta = np.arange(1, n + 1, dtype=ld) * pi / N
+    acc = np.zeros(n, dtype=ld)
+    for j in range(1, N // 2 - int(drop) + 1):
+        acc += np.sin((2 * j - 1) * theta) / (2 * j - 1)
+    w = 4 * np.sin(theta) * acc / N
+    return np.asarray(np.cos(theta)[::-1], dtype=float), np.asarray(w[::-1], dtype=float)
+
+
+def fejer2_truncation_distance(n, weights):
+    """max_k |w_k - w_k(series minus last term)| relative to the mean weight 2/n."""
+    w = np.asarray(weights, dtype=float)
+    _, wp = fejer2_series_weights(n, drop=1)
+    if w.shape != wp.shape or not np.all(np.isfinite(w)):
+        return float("inf")
+    return float(np.abs(w - wp).max() / (2.0 / n))
+
+
 # ------------------------------------------------------------------ self-tests
 def self_test():
     """Raise when an oracle of this module is wrong (-> the check is INCONCLUSIVE)."""
@@ -369,6 +399,16 @@ def self_test():
             _, dd = strip_map_reference(rho, [1.0, 1 - 1e-9])
             if abs(dd[0] - dd[1]) > 1e-6 * abs(dd[0]):
                 raise AssertionError("strip end derivative")
+    # 4b. Fejer-2 definition: the full series is exact to degree n-1, the series minus its last term is not
+    for n in (2, 3, 6, 7, 40, 41):
+        xf, wf = fejer2_series_weights(n)
+        if max_exact_degree(exact_degree_profile("legendre", xf, wf, n - 1)[0], 1e-12) != n - 1:
+            raise AssertionError(f"Fejer-2 series definition is not exact to degree n-1 (n={n})")
+        xt, wt = fejer2_series_weights(n, drop=1)
+        if max_exact_degree(exact_degree_profile("legendre", xt, wt, n - 1)[0], 1e-9) != (n - 3 if n % 2 == 0 else n - 2):
+            raise AssertionError(f"truncated Fejer-2 series: unexpected exact degree (n={n})")
+        if fejer2_truncation_distance(n, wf) < 1e-4:
+            raise AssertionError("truncation classifier cannot tell the full series from the truncated one")
     # 5. sine rule: the series weights satisfy the sine-exactness identity
     qs, wsr = zip(*[sine_rule_series_weight(7, i) for i in range(1, 8)])
     if sine_rule_exactness(np.array(qs), np.array(wsr)) > 1e-14:
